@@ -182,6 +182,44 @@ theorem c14_close_before_move (sameFs : Bool) :
       = some "new".toList := by
   cases sameFs <;> decide
 
+/-! ## Several data files -/
+
+/-- `rewrite_atomic_multi`: one `-r` over experiments with different data files rewrites each
+file on its own (temporary file next to it, closed, `os.replace`).  For every list of old contents,
+every list of rewrites (file index, filtered lines), every buffer capacity and a kill after any
+prefix of the whole operation sequence: the first `m` files of the sequence hold their new
+content and all others their old content — in particular every single file is old or new, never
+less, also when the kill falls between two files. -/
+theorem c14_rewrite_atomic_multi (olds : List Text) (rws : List (Nat × List Text)) (cap : Nat) :
+    ∀ c ∈ mcrashStates (MFS.start olds cap) (multiOps rws),
+      (∃ m, m ≤ rws.length ∧ c = switched (olds.map some) (rws.take m))
+      ∧ ∀ j, j < olds.length →
+          c[j]? = some (some olds[j]!) ∨ ∃ p ∈ rws, p.1 = j ∧ c[j]? = some (some p.2.flatten) := by
+  intro c hc
+  obtain ⟨m, hm, hcm⟩ := (multi_states rws _ (start_sound olds cap)).1 c hc
+  rw [start_contents] at hcm
+  refine ⟨⟨m, hm, hcm⟩, fun j hj => ?_⟩
+  rcases switched_get (rws.take m) (olds.map some) j with h | ⟨p, hp, hpj, hv⟩
+  · left
+    rw [hcm, h, List.getElem?_map, List.getElem?_eq_getElem hj]
+    simp [getElem!_pos, hj]
+  · right
+    exact ⟨p, List.mem_of_mem_take hp, hpj, by rw [hcm]; exact hv⟩
+
+/-- and when nothing kills it every rewritten file holds its new content, every other file its old -/
+theorem c14_rewrite_result_multi (olds : List Text) (rws : List (Nat × List Text)) (cap : Nat) :
+    ((MFS.start olds cap).run (multiOps rws)).contents = switched (olds.map some) rws := by
+  rw [(multi_states rws _ (start_sound olds cap)).2, start_contents]
+
+example : mcrashStates (MFS.start ["a".toList, "b".toList, "c".toList] 4)
+      (multiOps [(2, ["C".toList]), (0, ["A".toList, "A".toList])])
+    = [ [some "a".toList, some "b".toList, some "c".toList], [some "a".toList, some "b".toList, some "c".toList],
+        [some "a".toList, some "b".toList, some "c".toList], [some "a".toList, some "b".toList, some "c".toList],
+        [some "a".toList, some "b".toList, some "C".toList], [some "a".toList, some "b".toList, some "C".toList],
+        [some "a".toList, some "b".toList, some "C".toList], [some "a".toList, some "b".toList, some "C".toList],
+        [some "a".toList, some "b".toList, some "C".toList],
+        [some "AA".toList, some "b".toList, some "C".toList] ] := by decide
+
 /-! ## `-c` -/
 
 /-- `clean_empties`: truncation empties the configured data file whatever it held, and does not
